@@ -116,7 +116,10 @@ def boundary(rng, case, idx):
     def resolvable(base_, m_):
         """requests are honoured to a quantum (1e-10 g for masses ...): a source holding less than 1e4 quanta is below
         the resolution at which a relative distance of 3e-6 .. 1e-3 from the boundary means anything"""
-        return m_ > 1e4 * max(request_quantum(base_, s.contents), 1e-300)
+        quantum = request_quantum(base_, s.contents)
+        if base_ == 'U':
+            quantum = cf.q          # activity requests and totals are compared after rounding to 1e-10 U
+        return m_ > 1e4 * max(quantum, 1e-300)
 
     for base in R.BASES:
         m = R.measure(s.contents, base)
